@@ -262,15 +262,43 @@ fn run_binary_session(hash_mb: usize, steps: &[BStep], main: &SearchSpec, st: &m
         r.map_err(|e| Fail::new("binary:earlier_step_failed", format!("{step:?}: {e}")).explicit(ex()))?;
     }
     used.send("ucinewgame").map_err(infra_err)?;
-    let a = go_and_collect(&mut used, main).map_err(|e| Fail::new("binary:search_failed", e).explicit(ex()))?;
+    // a quarter of the sessions do not send a position after ucinewgame: a new game starts from the
+    // initial position, exactly like a fresh engine that is told to go at once
+    let bare = crate::framework::hash_of(&format!("{steps:?}{main:?}")) % 4 == 0;
+    let start_spec = SearchSpec { fen: crate::refchess::START_FEN.to_string(), moves: vec![], limit: main.limit.clone() };
+    let collect = |e: &mut Engine| -> Result<Vec<String>, String> {
+        if bare {
+            let Limit::Depth(d) = main.limit else { return Err("depth only".into()) };
+            e.send(&format!("go depth {d}"))?;
+            let mut lines = vec![];
+            loop {
+                let l = e.read_line(std::time::Duration::from_secs(120))?.ok_or("engine closed its output")?;
+                if l.starts_with("info ") {
+                    lines.push(strip(&l));
+                } else if l.starts_with("bestmove") {
+                    lines.push(l);
+                    return Ok(lines);
+                } else if l.contains("panic") {
+                    return Err(format!("engine panicked: {l}"));
+                }
+            }
+        } else {
+            go_and_collect(e, main)
+        }
+    };
+    let _ = &start_spec;
+    let a = collect(&mut used).map_err(|e| Fail::new("binary:search_failed", e).explicit(ex()))?;
     used.quit();
     let mut fresh = Engine::spawn(&[]).map_err(infra_err)?;
     fresh.send(&format!("setoption name Hash value {hash_mb}")).map_err(infra_err)?;
-    let b = go_and_collect(&mut fresh, main).map_err(|e| Fail::new("binary:search_failed", e).explicit(ex()))?;
+    let b = collect(&mut fresh).map_err(|e| Fail::new("binary:search_failed", e).explicit(ex()))?;
     fresh.quit();
+    if bare {
+        st.class("go_without_position_after_ucinewgame");
+    }
     if a != b {
         let diff = a.iter().zip(b.iter()).find(|(x, y)| x != y).map(|(x, y)| format!("'{x}' vs '{y}'")).unwrap_or_else(|| format!("{} vs {} lines", a.len(), b.len()));
-        return Err(Fail::new("ucinewgame_not_fresh", format!("after {} earlier steps and ucinewgame the engine answers differently from a fresh process ({} {:?}): {diff}", steps.len(), main.fen, main.limit)).explicit(ex()));
+        return Err(Fail::new("ucinewgame_not_fresh", format!("after {} earlier steps and ucinewgame the engine answers differently from a fresh process ({} {:?}{}): {diff}", steps.len(), main.fen, main.limit, if bare { ", go without a position command" } else { "" })).explicit(ex()));
     }
     if stop_after_end {
         st.class("stop_sent_after_a_search_had_ended");
